@@ -1,41 +1,51 @@
 (* C17 — exceptions from configurables keep their type, data and traceback (PARTIAL).
-   What is proved is the attribute-resolution argument over the measured slot table; CPython's
-   constructors and struct layouts are measured by the harness, not modelled. *)
+   What is proved is the attribute-resolution argument over the measured attribute table of the class (Python's
+   lookup order on the proxy: type-level data descriptor, instance dict, other class-level attribute, __getattr__);
+   CPython's constructors and struct layouts are measured by the harness, not modelled. *)
 From Coq Require Import List String ZArith Bool.
 From GinV Require Import Lib.Out Model.ExcProxy.
 Import ListNotations.
 Open Scope string_scope.
 Open Scope list_scope.
 
-(* repaired code: every public attribute of the original reads the same on what the caller catches,
-   whatever the class's slot table *)
-Theorem C17_all_attributes_equal : forall is_exc constructible attrs,
-  is_exc = true ->
-  run (is_exc, constructible, attrs) = OT "Proxy" [OL (map (fun a => OL [OS (fst (fst a)); OB true]) attrs)].
+(* current (repaired) code: the exception class is never lost and every public attribute of the original reads the
+   same on what the caller catches — whatever the class's attribute table and whichever constructions succeed *)
+Theorem C17_all_attributes_equal : forall from_args from_nothing attrs,
+  run (true, (from_args, from_nothing), attrs) = OT "Proxy" [OL (map (fun a => OL [OS (fst a); OB true]) attrs)].
 Proof.
-  intros is_exc constructible attrs H. subst. unfold run, run_gen. cbn [negb andb].
-  rewrite Bool.andb_false_r. do 3 f_equal. apply map_ext. intros [[n s] f]. unfold reads_same.
-  destruct s; reflexivity.
+  intros fa fn attrs. unfold run, run_gen, constructed, current. cbn [negb r_new r_slots r_dict].
+  rewrite Bool.orb_true_r. cbn [negb]. do 3 f_equal. apply map_ext. intros [n k]. unfold reads_same. cbn [snd fst r_slots r_dict].
+  destruct k; reflexivity.
 Qed.
 
 (* exceptions that are not Exception subclasses pass through untouched *)
-Theorem C17_non_exception_passthrough : forall constructible attrs repaired,
-  run_gen repaired (false, constructible, attrs) = OT "PassThrough" [].
-Proof. reflexivity. Qed.
+Theorem C17_non_exception_passthrough : forall r c attrs, run_gen r (false, c, attrs) = OT "PassThrough" [].
+Proof. intros r [a b] attrs. reflexivity. Qed.
 
-(* attributes living only in the instance dict were always forwarded *)
-Theorem C17_dict_attributes_forwarded : forall repaired n fresh, reads_same repaired (n, false, fresh) = true.
-Proof. reflexivity. Qed.
+(* attributes living only in the instance dict, or only on the class, always read the same *)
+Theorem C17_plain_attributes_forwarded : forall r n, reads_same r (n, ADict) = true /\ reads_same r (n, AClass) = true.
+Proof. intros. split; reflexivity. Qed.
 
-(* the code before the repair: a slot-backed attribute whose default differs from the original's value
-   read differently (args == (), errno None, ...), and a class that cannot be constructed without
-   arguments lost its type *)
+(* each repair is needed: the code before it read an attribute differently or lost the class *)
+Theorem C17_slots_repair_needed :
+  reads_same {| r_slots := false; r_dict := true; r_new := true |} ("args", ASlot false) = false.
+Proof. reflexivity. Qed.
+Theorem C17_dict_repair_needed :
+  reads_same {| r_slots := true; r_dict := false; r_new := true |} ("code", ADictShadow) = false.
+Proof. reflexivity. Qed.
+Theorem C17_new_repair_needed : forall attrs,
+  run_gen {| r_slots := true; r_dict := true; r_new := false |} (true, (false, false), attrs) = OT "ClassLost" [OS "TypeError"].
+Proof. reflexivity. Qed.
+(* kept under its earlier name: the original code (no repair at all) *)
 Theorem C17_orig_refuted :
-  (exists a, reads_same false a = false) /\
-  (exists attrs, run_orig (true, false, attrs) = OT "ClassLost" [OS "TypeError"]).
-Proof. split; [exists ("args", true, false) | exists []]; reflexivity. Qed.
+  (exists a, reads_same {| r_slots := false; r_dict := false; r_new := false |} a = false) /\
+  (exists attrs, run_gen {| r_slots := false; r_dict := false; r_new := false |} (true, (false, false), attrs) = OT "ClassLost" [OS "TypeError"]).
+Proof. split; [exists ("args", ASlot false) | exists []]; reflexivity. Qed.
 
 Print Assumptions C17_all_attributes_equal.
 Print Assumptions C17_non_exception_passthrough.
-Print Assumptions C17_dict_attributes_forwarded.
+Print Assumptions C17_plain_attributes_forwarded.
+Print Assumptions C17_slots_repair_needed.
+Print Assumptions C17_dict_repair_needed.
+Print Assumptions C17_new_repair_needed.
 Print Assumptions C17_orig_refuted.
